@@ -331,6 +331,36 @@ type c19resp struct {
 	body   []byte
 }
 
+// c19send: the same resource asked for with another method and a body (a posted form, a JSON body, a multipart form):
+// the response is a function of the resource and of the QUERY's callback parameter only.
+func c19send(method, u, ctype, body string) (c19resp, error) {
+	req, err := http.NewRequest(method, u, strings.NewReader(body))
+	if err != nil {
+		return c19resp{}, err
+	}
+	if ctype != "" {
+		req.Header.Set("Content-Type", ctype)
+	}
+	resp, err := http.DefaultClient.Do(req)
+	if err != nil {
+		return c19resp{}, err
+	}
+	defer resp.Body.Close()
+	b, err := io.ReadAll(resp.Body)
+	return c19resp{resp.StatusCode, resp.Header.Get("Content-Type"), resp.Header.Get("Server"), b}, err
+}
+
+var c19bodies = []struct{ method, ctype, body string }{
+	{"POST", "application/x-www-form-urlencoded", "callback=posted&x=1"},
+	{"PUT", "application/x-www-form-urlencoded", "x=1&callback=put"},
+	{"PATCH", "application/x-www-form-urlencoded", "callback="},
+	{"POST", "application/json", `{"callback":"j"}`},
+	{"POST", "multipart/form-data; boundary=XX", "--XX\r\nContent-Disposition: form-data; name=\"callback\"\r\n\r\nmp\r\n--XX--\r\n"},
+	{"POST", "", ""},
+	{"DELETE", "", ""},
+}
+var c19sendN int
+
 func c19get(u string) (c19resp, error) {
 	resp, err := http.Get(u)
 	if err != nil {
@@ -438,6 +468,21 @@ func c19(c *h.Ctx) {
 		} else {
 			c.Hold(plain.status == 500 && cerr != nil, "unmarshalable_is_error", in, fmt.Sprintf("%d %s", plain.status, cres), "500 fail 500")
 			c.Hold(string(plain.body) == merr+"\n", "unmarshalable_is_error.body", in, h.Trunc(string(plain.body), 80), merr)
+		}
+		// the same with another method / a body: what decides the form of the response is the query, not the body
+		{
+			c19sendN++
+			bd := c19bodies[c19sendN%len(c19bodies)]
+			other, err := c19send(bd.method, withCb(""), bd.ctype, bd.body)
+			c.Hold(err == nil && other.status == plain.status && other.ctype == plain.ctype && bytes.Equal(other.body, plain.body), "method_and_body_do_not_matter",
+				fmt.Sprintf("%s; then %s with Content-Type %q and body %q, no callback in the query", in, bd.method, bd.ctype, bd.body),
+				fmt.Sprintf("%v %d %s %s", err, other.status, other.ctype, h.Trunc(string(other.body), 200)), fmt.Sprintf("<nil> %d %s %s", plain.status, plain.ctype, h.Trunc(string(plain.body), 200)))
+			if cb != "" && !v.bad {
+				o2, err := c19send(bd.method, withCb(cb), bd.ctype, bd.body)
+				c.Hold(err == nil && o2.ctype == "application/javascript" && string(o2.body) == cb+"("+string(plain.body)+")", "method_and_body_do_not_matter",
+					fmt.Sprintf("%s; then %s with Content-Type %q and body %q, callback=%s in the query", in, bd.method, bd.ctype, bd.body, cb),
+					fmt.Sprintf("%v %s %s", err, o2.ctype, h.Trunc(string(o2.body), 200)), "application/javascript "+h.Trunc(cb+"("+string(plain.body)+")", 200))
+			}
 		}
 		if cb != "" {
 			wr, err := c19get(withCb(cb))
